@@ -419,6 +419,148 @@ def real_C10(ctx, pexpect, thorough):
     if bad:
         ctx.hit('C10/socket-close', bad, {})
     ctx.oracle_stats['real_children'] = tried
+    socket_close_releases(ctx, pexpect)
+    async_after_close(ctx, pexpect)
+
+
+def async_after_close(ctx, pexpect):
+    """an object that has been used with awaited calls (asyncio keeps a transport for its descriptor), then closed: a further
+    awaited call fails with an error and does not read from whoever owns the old descriptor number now"""
+    import asyncio
+    import socket
+    from pexpect import fdpexpect, socket_pexpect
+    tried = 0
+    for transport in ('pty', 'pty-soft-close-fails', 'fd', 'socket'):
+        loop = asyncio.new_event_loop()
+        asyncio.set_event_loop(loop)
+        keep = []
+        c = None
+        try:
+            if transport.startswith('pty'):
+                prog = ('import time,os,signal\nsignal.signal(signal.SIGHUP,signal.SIG_IGN); signal.signal(signal.SIGINT,signal.SIG_IGN)\n'
+                        'os.write(1,b"R")\nwhile True: time.sleep(1)') if transport != 'pty' else 'import time,os\nos.write(1,b"R")\ntime.sleep(30)'
+                c = pexpect.spawn(sys.executable, ['-c', prog], timeout=10)
+            elif transport == 'fd':
+                r0, w0 = os.pipe()
+                os.write(w0, b'R')
+                keep.append(w0)
+                c = fdpexpect.fdspawn(r0, timeout=10)
+            else:
+                a, b = socket.socketpair()
+                b.sendall(b'R')
+                keep.append(b)
+                c = socket_pexpect.SocketSpawn(a, timeout=10)
+            loop.run_until_complete(c.expect_exact(b'R', async_=True))
+            fd = c.child_fd
+            try:
+                c.close(force=False) if transport == 'pty-soft-close-fails' else c.close()
+            except pexpect.ExceptionPexpect:
+                pass
+            # somebody else gets the number: a pipe that holds a secret
+            pipes = []
+            while len(pipes) < 64 and not any(r_ == fd for r_, _ in pipes):
+                pipes.append(os.pipe())
+            owner = next(((r_, w_) for r_, w_ in pipes if r_ == fd), None)
+            if owner is not None:
+                os.write(owner[1], b'SECRET')
+            try:
+                idx = loop.run_until_complete(asyncio.wait_for(c.expect_exact([b'SECRET', pexpect.TIMEOUT, pexpect.EOF], timeout=0.5, async_=True), 5))
+                out = 'returned index %r (before=%r, after=%r)' % (idx, c.before, c.after)
+            except (pexpect.EOF, pexpect.TIMEOUT) as e:
+                out = 'reported %s' % type(e).__name__
+            except Exception:
+                out = None                    # an error: what the property asks for
+            stolen = False
+            if owner is not None:
+                os.set_blocking(owner[0], False)
+                try:
+                    stolen = os.read(owner[0], 100) != b'SECRET'
+                except BlockingIOError:
+                    stolen = True
+            tried += 1
+            for r_, w_ in pipes:
+                for f_ in (r_, w_):
+                    try:
+                        os.close(f_)
+                    except OSError:
+                        pass
+            if out is not None or stolen:
+                ctx.hit('C10/await-after-close', '%s: after an awaited expect and close(), a further awaited expect %s%s'
+                        % (transport, out or 'raised an error', '; it took the data of the unrelated pipe that had been given descriptor number %d' % fd if stolen else ''),
+                        {'transport': transport})
+                return
+        except Exception as e:
+            ctx.hit('C10/await-after-close', '%s: %r' % (transport, e), {'transport': transport})
+            return
+        finally:
+            try:
+                if c is not None and c.async_pw_transport:
+                    c.async_pw_transport[1].abort() if hasattr(c.async_pw_transport[1], 'abort') else None
+            except Exception:
+                pass
+            try:
+                if c is not None and transport.startswith('pty'):
+                    c.close(force=True)
+            except Exception:
+                pass
+            for k_ in keep:
+                try:
+                    k_.close() if hasattr(k_, 'close') else os.close(k_)
+                except Exception:
+                    pass
+            try:
+                loop.run_until_complete(asyncio.sleep(0))
+            except Exception:
+                pass
+            loop.close()
+            asyncio.set_event_loop(None)
+    ctx.oracle_stats['await_after_close'] = tried
+
+
+def socket_close_releases(ctx, pexpect):
+    """SocketSpawn.close() releases the socket whatever state the connection is in: peer gone, connection reset, never connected"""
+    import socket
+    import struct
+    from pexpect import socket_pexpect
+    tried = 0
+    scen = []
+    u = socket.socket(socket.AF_UNIX, socket.SOCK_STREAM)
+    scen.append(('a stream socket that is not connected', u))
+    try:
+        srv = socket.socket()
+        srv.bind(('127.0.0.1', 0))
+        srv.listen(1)
+        cl = socket.create_connection(srv.getsockname(), timeout=2)
+        acc, _ = srv.accept()
+        acc.setsockopt(socket.SOL_SOCKET, socket.SO_LINGER, struct.pack('ii', 1, 0))
+        acc.close()                 # the peer resets the connection
+        srv.close()
+        time.sleep(0.1)
+        try:
+            cl.recv(10)             # the reset is noticed
+        except OSError:
+            pass
+        scen.append(('a TCP connection reset by the peer', cl))
+    except OSError:
+        pass                        # no loopback here: the first scenario has to do
+    for what, sock in scen:
+        s_ = socket_pexpect.SocketSpawn(sock, timeout=2)
+        err = None
+        try:
+            s_.close()
+        except Exception as e:
+            err = e
+        tried += 1
+        still_open = sock.fileno() != -1
+        if still_open or not s_.closed or s_.child_fd != -1:
+            ctx.hit('C10/socket-close', 'SocketSpawn.close() on %s %s: the socket is %s, closed=%r child_fd=%r'
+                    % (what, 'raised %r' % (err,) if err else 'returned', 'still open' if still_open else 'released', s_.closed, s_.child_fd), {'scenario': what})
+            try:
+                sock.close()
+            except OSError:
+                pass
+            return
+    ctx.oracle_stats['socket_close_scenarios'] = tried
 
 
 def foreign_fd_probe(pexpect, c, fd):
